@@ -19,6 +19,13 @@ PROGRAMS = [
     "class K:\n    v = 1\nfor i in range(3):\n    if i == K.v:\n        break\n    print(i)\nelse:\n    print('e')\nwhile i < 2:\n    i += 1\n",
     "def f(a, b=2):\n    if a:\n        return a + b\n    return b\nimport math\nprint(f(0), f(1), math.floor(2.5))\n",
 ]
+# conversions that RAISE half-way (after a for+break loop / a while loop and an import / a class
+# and a function were already converted): they must not leave anything behind
+FAIL_PROGRAMS = [
+    "for x in range(5):\n    if x > 2:\n        break\nwith open('f') as g:\n    pass\n",
+    "import os\nn = 0\nwhile True:\n    n += 1\n    break\ntry:\n    pass\nfinally:\n    pass\n",
+    "class K:\n    def m(self, r):\n        for i in r:\n            for j in r:\n                if i:\n                    return j\n        del r\n",
+]
 OPTIONS = ["unparser", "expr_wrapper", "if_style"]
 VALUES = {
     "unparser": ["ast.unparse", "oneliner", "bogus"],
@@ -86,6 +93,8 @@ def step_kinds(nprog):
     for p in range(nprog):
         acts.append(("convert_default", p))
     acts.append(("reseed", 7))
+    for f in range(len(FAIL_PROGRAMS)):
+        acts.append(("convert_fail", f))
     return acts
 
 
@@ -133,6 +142,12 @@ def run_history(sel, nprog):
                 return False
         elif k == "reseed":
             random.seed(act[1])
+        elif k == "convert_fail":
+            try:
+                ol.convert_code_string(FAIL_PROGRAMS[act[1]])
+                return False  # an unsupported program was accepted
+            except Exception:
+                pass
         # invariant after every step: every object reads back exactly its own values; a fresh
         # object and the class see the defaults
         for o in (0, 1):
